@@ -30,7 +30,9 @@ PROP = "C02"
 LEVEL = "exploration"
 RULE = ("corpus = seeded random statements (select/set-operation/insert/update/delete/create/drop/load) and term forests "
         "for each of the six dialect classes plus fixed UPDATE..JOIN and FOR UPDATE OF(>=3) programs; each object gets a "
-        "random render history of 12-40 operations; non-trivial = the object rendered non-empty SQL in at least one "
+        "random render history of 12-40 operations; the process monitor renders the corpus and a sign-flipped twin of every "
+        "program in child interpreters that differ in PYTHONHASHSEED and in the order in which the objects are rendered "
+        "(forward / reverse / shuffled) - digests per object must agree; non-trivial = the object rendered non-empty SQL in at least one "
         "context and the history repeated at least one (object, op, context) key; distinct = distinct program hash")
 ASSUMPTIONS = [
     "hash seeds are sampled (4 quick / 24 thorough), not all 2^64",
@@ -44,7 +46,7 @@ WORKERS = {"quick": 16, "thorough": 16}
 WATCHDOG = {"quick": 600, "thorough": 3000}
 
 KINDS = ["select", "select", "setop", "insert", "update", "delete", "create", "drop"]
-SPECIAL_KINDS = {"update-join", "for-update-of", "update-from", "dialect-sensitive-constants", "dialect-sensitive-set"}
+SPECIAL_KINDS = {"update-join", "for-update-of", "update-from", "dialect-sensitive-constants", "dialect-sensitive-set", "sign-twins"}
 
 
 def special_programs(d):
@@ -89,6 +91,17 @@ def special_programs(d):
         q = p.call(q, "set", p.call(t1, "field", "c%d" % i), c)
     q = p.call(q, "where", p.bin("==", p.call(t1, "field", "id"), consts[1]))
     out.append((p.prog(dialect=d, kind="dialect-sensitive-set"), q.i))
+    # values whose twins (sign flipped, see perturb) share everything but the sign: composite intervals, negative numbers
+    p = P()
+    t1 = p.new("Table", "t1")
+    q = p.call(p.call(Cls(d), "from_", t1), "select",
+               p.bin("+", p.call(t1, "field", "ts"), p.new("Interval", days=3, hours=20)),
+               p.bin("-", p.call(t1, "field", "ts"), p.new("Interval", years=1, months=2)),
+               p.bin("+", p.call(t1, "field", "ts"), p.new("Interval", hours=1, minutes=30, seconds=15)),
+               p.bin("+", p.call(t1, "field", "n"), 7), 2.5)
+    q = p.call(q, "where", p.bin(">", p.call(t1, "field", "a"), p.un("neg", p.call(t1, "field", "b"))))
+    q = p.call(q, "limit", 5)
+    out.append((p.prog(dialect=d, kind="sign-twins"), q.i))
     return out
 
 
@@ -398,22 +411,84 @@ def run_case(case, mon):
 
 
 # ------------------------------------------------------------------------------------------- processes
+def perturb(prog):
+    """Twin of a program: same calls and names, numeric constants negated (booleans and strings kept).  Rendered next to
+    the original in the digest children, it is the neighbour most likely to collide with it in any cache that is keyed too coarsely."""
+    def pv(v):
+        if isinstance(v, bool) or v is None or isinstance(v, str):
+            return v
+        if isinstance(v, int):
+            return -v
+        if isinstance(v, list):
+            return [pv(x) for x in v]
+        if isinstance(v, dict):
+            if v.get("$") in ("r", "cls", "Q", "enum", "slice"):
+                return v
+            if v.get("$") in ("float", "dec", "int"):
+                t = v["v"]
+                return dict(v, v=t[1:] if t.startswith("-") else "-" + t)
+            return {k: (pv(x) if k in ("v", "a", "k") else x) for k, x in v.items()}
+        return v
+    steps = []
+    for st in prog["steps"]:
+        st = dict(st)
+        if "a" in st:
+            st["a"] = pv(st["a"])
+        if isinstance(st.get("k"), dict):
+            st["k"] = {k: pv(x) for k, x in st["k"].items()}
+        steps.append(st)
+    out = {"steps": steps}
+    if "meta" in prog:
+        out["meta"] = prog["meta"]
+    return out
+
+
+def digest_items(tier, seed, shard, nshards, limit):
+    """[(label, program, target)]: the corpus of the shard, each program followed by its perturbed twin."""
+    out = []
+    for i, (prog, tgt) in enumerate(corpus(tier, seed, shard, nshards)[:limit]):
+        out.append(("%05d" % i, prog, tgt))
+        out.append(("%05d~" % i, perturb(prog), tgt))
+    return out
+
+
+def digest_order(n, order):
+    idx = list(range(n))
+    if order == "reverse":
+        idx.reverse()
+    elif order.startswith("shuffle"):
+        random.Random(order).shuffle(idx)
+    return idx
+
+
 def digest_main(argv):
-    """child: print one digest line per (program index, context, mode) of this shard's corpus."""
+    """child: print one digest line per (program, context, mode) of this shard's corpus and of the perturbed twins; the objects
+    are rendered in the given order (forward / reverse / shuffle<k>) and the lines are printed sorted by program label."""
     tier, seed, shard, nshards, limit = argv[0], int(argv[1]), int(argv[2]), int(argv[3]), int(argv[4])
+    order = argv[5] if len(argv) > 5 else "forward"
     ctxs = contexts()
-    items = corpus(tier, seed, shard, nshards)[:limit]
-    for i, (prog, tgt) in enumerate(items):
-        env = run(prog)
+    items = digest_items(tier, seed, shard, nshards, limit)
+    lines = []
+    for j in digest_order(len(items), order):
+        label, prog, tgt = items[j]
+        try:
+            env = run(prog)
+        except Exception:
+            continue
         o = env[tgt]
         if isinstance(o, Failed) or not hasattr(o, "get_sql"):
             continue
-        for cn, ctx in ctxs.items():
+        cns = list(ctxs)
+        if order != "forward":
+            cns.reverse()
+        for cn in cns:
             for mode in ("sql", "sqlp"):
-                out = do_op(o, mode, ctx)
+                out = do_op(o, mode, ctxs[cn])
                 h = hashlib.sha256(json.dumps(out, default=str).encode()).hexdigest()[:16]
-                print("%d %s %s %s" % (i, cn, mode, h))
-        print("%d - str %s" % (i, hashlib.sha256(str(do_op(o, "str", None)).encode()).hexdigest()[:16]))
+                lines.append("%s %s %s %s" % (label, cn, mode, h))
+        lines.append("%s - str %s" % (label, hashlib.sha256(str(do_op(o, "str", None)).encode()).hexdigest()[:16]))
+    lines.sort()
+    print("\n".join(lines))
 
 
 def hash_seeds(tier, seed):
@@ -422,19 +497,26 @@ def hash_seeds(tier, seed):
     return [str(x) for x in range(16)] + [str(1000 + seed * 8 + i) for i in range(8)]
 
 
+def child_order(k):
+    """Render order of the k-th child: the first two differ in the hash seed only, the others also in the order."""
+    return "forward" if k < 2 else ("reverse" if k % 2 == 0 else "shuffle%d" % k)
+
+
+def spawn_digest(tier, seed, shard, nshards, limit, hs, order):
+    env = dict(os.environ)
+    env["PYTHONHASHSEED"] = hs
+    env["PYTHONPATH"] = VERIF + os.pathsep + env.get("PYTHONPATH", "")
+    return subprocess.Popen([sys.executable, "-m", "pvm.checks.c02", "digest", tier, str(seed), str(shard), str(nshards), str(limit), order],
+                            cwd=VERIF, env=env, stdout=subprocess.PIPE, stderr=subprocess.PIPE, text=True)
+
+
 def finish(mon, tier, seed, shard, nshards):
     limit = 120 if tier == "quick" else 6000
     seeds = hash_seeds(tier, seed)
-    # shard the hash seeds too in thorough mode (every shard still compares >= 4 interpreters)
     outs = {}
     procs = []
-    for hs in seeds:
-        env = dict(os.environ)
-        env["PYTHONHASHSEED"] = hs
-        env["PYTHONPATH"] = VERIF + os.pathsep + env.get("PYTHONPATH", "")
-        procs.append((hs, subprocess.Popen([sys.executable, "-m", "pvm.checks.c02", "digest", tier, str(seed), str(shard),
-                                            str(nshards), str(limit)], cwd=VERIF, env=env, stdout=subprocess.PIPE,
-                                           stderr=subprocess.PIPE, text=True)))
+    for k, hs in enumerate(seeds):
+        procs.append((hs, spawn_digest(tier, seed, shard, nshards, limit, hs, child_order(k))))
         if len(procs) >= 4:
             for hs2, p in procs:
                 so, se = p.communicate(timeout=1500)
@@ -444,35 +526,40 @@ def finish(mon, tier, seed, shard, nshards):
         so, se = p.communicate(timeout=1500)
         outs[hs2] = (p.returncode, so, se)
     ref = None
-    for hs in seeds:
+    for k, hs in enumerate(seeds):
         rc, so, se = outs[hs]
         if rc != 0:
             mon.inconc("digest child PYTHONHASHSEED=%s failed rc=%s: %s" % (hs, rc, se[-500:]))
             continue
         lines = so.splitlines()
         mon.count("child_interpreters")
+        mon.add("child_render_orders", child_order(k))
         mon.count("cross_process_digests", len(lines))
+        mon.count("cross_process_twin_digests", sum(1 for ln in lines if "~" in ln.split()[0]))
         if ref is None:
-            ref = (hs, lines)
+            ref = (hs, lines, k)
             continue
         if lines != ref[1]:
-            # first differing line -> program index; re-render in-process to show the text
-            for a, b in zip(ref[1], lines):
-                if a != b:
-                    break
-            else:
-                a = b = "(different number of lines)"
-            idx = int(a.split()[0]) if a[0].isdigit() else -1
+            # first differing line -> program label; re-render in-process to show the text
+            da, db = dict((ln.rsplit(" ", 1)) for ln in ref[1]), dict((ln.rsplit(" ", 1)) for ln in lines)
+            diff = sorted(x for x in set(da) | set(db) if da.get(x) != db.get(x))
+            a = diff[0] if diff else "(different number of lines)"
+            label = a.split()[0]
+            idx = int(label.rstrip("~")) if label[0].isdigit() else -1
             items = corpus(tier, seed, shard, nshards)
             prog, tgt = items[idx] if idx >= 0 else ({"steps": []}, 0)
-            key = "process:%s" % prog.get("meta", {}).get("kind", "?")
+            if label.endswith("~"):
+                prog = perturb(prog)
             o = run(prog)[tgt] if idx >= 0 else None
             cls = type(o).__name__ if o is not None else "?"
-            mon.violation("%s:hash-seed-dependent:%s" % (cls, _mech(o)),
-                          "digest line %r under PYTHONHASHSEED=%s but %r under PYTHONHASHSEED=%s; text here: %s" % (
-                              a, ref[0], b, hs, _short(str(o))),
-                          {"seeds": [ref[0], hs], "lines": [a, b]},
-                          case={"k": "proc", "prog": prog, "tgt": tgt, "seeds": [ref[0], hs]})
+            same_order = child_order(k) == child_order(ref[2])
+            what = "hash-seed-dependent" if same_order else "render-order-or-hash-seed-dependent"
+            mon.violation("%s:%s:%s" % (cls, what, _mech(o)),
+                          "digest of %r is %s in the child with PYTHONHASHSEED=%s (objects rendered %s) but %s with PYTHONHASHSEED=%s (rendered %s); "
+                          "%d digest lines differ; text here: %s" % (a, da.get(a), ref[0], child_order(ref[2]), db.get(a), hs, child_order(k), len(diff), _short(str(o))),
+                          {"seeds": [ref[0], hs], "orders": [child_order(ref[2]), child_order(k)], "lines": diff[:10]},
+                          case={"k": "proc", "prog": prog, "tgt": tgt, "seeds": [ref[0], hs], "orders": [child_order(ref[2]), child_order(k)],
+                                "args": [tier, seed, shard, nshards, limit]})
             return
 
 
@@ -485,20 +572,17 @@ def _mech(o):
 
 
 def run_proc_case(case, mon):
-    """replay of a process-monitor witness: render the program in two fresh interpreters."""
+    """replay of a process-monitor witness: the two digest children are run again and compared."""
+    tier, seed, shard, nshards, limit = case["args"]
     outs = []
-    for hs in case["seeds"]:
-        env = dict(os.environ)
-        env["PYTHONHASHSEED"] = hs
-        env["PYTHONPATH"] = VERIF + os.pathsep + env.get("PYTHONPATH", "")
-        code = ("import json,sys;from pvm.prog import run;c=json.load(sys.stdin);o=run(c['prog'])[c['tgt']];"
-                "print(str(o))")
-        r = subprocess.run([sys.executable, "-c", code], input=json.dumps(case), cwd=VERIF, env=env,
-                           capture_output=True, text=True, timeout=120)
-        outs.append(r.stdout)
+    for hs, order in zip(case["seeds"], case["orders"]):
+        p = spawn_digest(tier, seed, shard, nshards, limit, hs, order)
+        so, se = p.communicate(timeout=1500)
+        outs.append(so.splitlines())
     if outs[0] != outs[1]:
-        mon.violation("process:hash-seed-dependent", "renders differ across PYTHONHASHSEED %s: %r vs %r" % (
-            case["seeds"], _short(outs[0]), _short(outs[1])))
+        diff = [a for a, b in zip(outs[0], outs[1]) if a != b]
+        mon.violation("process:render-order-or-hash-seed-dependent", "digests differ between PYTHONHASHSEED/order %s/%s: %d lines, first %r" % (
+            case["seeds"], case["orders"], len(diff), diff[:1]))
 
 
 _run_case0 = run_case
